@@ -296,6 +296,10 @@ func vsBitswapWorld(s *verifsim.Sim) {
 	// the unmarshal registry is process-global: entries of fetches that an earlier run left pending
 	// must not leak into this one
 	unmarshalFns.Range(func(k, _ any) bool { unmarshalFns.Delete(k); return true })
+	vsSlowMu.Lock()
+	clear(vsSlow)
+	clear(vsStale)
+	vsSlowMu.Unlock()
 	rng := mrand.New(mrand.NewPCG(uint64(s.Choose(1<<16, "data_seed")), 41))
 	w := []int{1, 2, 2, 4, 4, 8}[s.Choose(6, "ods_width")]
 	sqA := verifsq.Gen(rng, w, -1)
@@ -348,10 +352,12 @@ func vsBitswapWorld(s *verifsim.Sim) {
 		blks   []*vsReqBlock
 		cancel context.CancelFunc
 		done   *verifsim.Task
-		err    error
-		viaGet bool
-		smps   []shwap.Sample
-		coords []shwap.SampleCoords
+		// returned is set when Fetch has returned (its registry entries are deleted by then)
+		returned bool
+		err      error
+		viaGet   bool
+		smps     []shwap.Sample
+		coords   []shwap.SampleCoords
 	}
 	ntasks := s.Range(1, 3, "ntasks")
 	var tasks []*fetchTask
@@ -401,9 +407,10 @@ func vsBitswapWorld(s *verifsim.Sim) {
 				for i, x := range ft.blks {
 					// a scheduling point inside fetch's registration loop (between looking a CID up in
 					// the registry and registering it), so that concurrent fetches interleave there
-					bl[i] = vsYieldingBlock{Block: x.blk, s: s, label: ft.name + " registers " + x.kind}
+					bl[i] = vsYieldingBlock{Block: x.blk, s: s, label: ft.name + " registers " + x.kind, returned: &ft.returned, cid: x.cid}
 				}
 				ft.err = Fetch(tctx, ex, sqA.Roots, bl, WithFetcher(ex.NewSession(tctx)), WithStore(bstore))
+				ft.returned = true
 				s.Note("%s: Fetch returned %v", ft.name, ft.err)
 			})
 		}
@@ -417,6 +424,13 @@ func vsBitswapWorld(s *verifsim.Sim) {
 		}
 		return b.RawData()
 	}
+	// the hasher takes the entry lock, a scheduling point: deliveries run in tasks
+	deliver := func(prefix cid.Prefix, data []byte) (acc bool, got cid.Cid, err error) {
+		s.DoSelf("delivery", func() { acc, got, err = ex.Deliver(prefix, data) })
+		return acc, got, err
+	}
+	slowOut := 0
+	nSlow := 0
 	cancelled := false
 	hostileAccepted := 0
 	nsteps := s.Range(3, 40, "nsteps")
@@ -430,10 +444,36 @@ func vsBitswapWorld(s *verifsim.Sim) {
 			short = short[len(short)-6:]
 			alts = append(alts, verifsim.Alt{Label: "honest " + short, Weight: 8, Do: func() {
 				if data := honestBytes(c, serving); data != nil {
-					acc, got, err := ex.Deliver(c.Prefix(), data)
+					acc, got, err := deliver(c.Prefix(), data)
 					s.Note("honest delivery for %s: accepted=%v cid=%s err=%v", c, acc, got, err)
 				}
 			}})
+			if slowOut < 2 {
+				alts = append(alts, verifsim.Alt{Label: "slow delivery " + short, Weight: 3, Do: func() {
+					// a copy whose verification takes its time: honest bytes, or the block of the other square
+					data := honestBytes(c, serving)
+					if s.Chance(1, 2, "slow_copy_is_hostile") {
+						s.Fault("delivery-other-square-slow")
+						data = honestBytes(c, servingB)
+					}
+					if data == nil {
+						return
+					}
+					s.Fault("concurrent-delivery")
+					slowOut++
+					nSlow++
+					s.Go(fmt.Sprintf("slow-delivery-%d", nSlow), func() {
+						defer func() { slowOut-- }()
+						vsSlowMu.Lock()
+						vsSlow[verifsim.GoID()] = true
+						vsSlowMu.Unlock()
+						_, _, _ = ex.Deliver(c.Prefix(), data)
+						vsSlowMu.Lock()
+						delete(vsSlow, verifsim.GoID())
+						vsSlowMu.Unlock()
+					})
+				}})
+			}
 			alts = append(alts, verifsim.Alt{Label: "hostile " + short, Weight: 8, Do: func() {
 				data := honestBytes(c, serving)
 				prefix := c.Prefix()
@@ -489,7 +529,7 @@ func vsBitswapWorld(s *verifsim.Sim) {
 					return
 				}
 				ref := honestBytes(c, serving)
-				acc, got, _ := ex.Deliver(prefix, data)
+				acc, got, _ := deliver(prefix, data)
 				if acc && got.Equals(c) && !bytes.Equal(data, ref) {
 					hostileAccepted++
 					s.Note("exchange accepted non-honest bytes for %s (%s)", c, names[kind])
@@ -525,7 +565,7 @@ func vsBitswapWorld(s *verifsim.Sim) {
 		progress := false
 		for _, c := range wanted {
 			if data := honestBytes(c, serving); data != nil {
-				acc, got, derr := ex.Deliver(c.Prefix(), data)
+				acc, got, derr := deliver(c.Prefix(), data)
 				if acc {
 					progress = true
 				} else {
@@ -588,7 +628,14 @@ func vsBitswapWorld(s *verifsim.Sim) {
 			s.Note("%s: block %s cid=%s populated=%v err=%v", ft.name, rb.kind, rb.cid, rb.populated(), ft.err)
 			if !rb.populated() {
 				if !cancelled && ft.err == nil {
-					s.ViolateP("C10", "c10-fulfilled-but-empty", rb.kind, "%s: Fetch returned nil but the block %s is not populated", ft.name, rb.kind)
+					vsSlowMu.Lock()
+					stale := vsStale[rb.cid]
+					vsSlowMu.Unlock()
+					if stale {
+						s.ViolateP("C10", "c10-fulfilled-but-empty", "delivery verified against the entry of a fetch that had returned", "%s: Fetch returned nil but the block %s is not populated: a copy of the block was still inside the hasher, being checked by the verifier an earlier fetch of the identifier had registered, when that fetch returned and this one registered anew; the copy was then handed to this fetch", ft.name, rb.kind)
+						return
+					}
+					s.ViolateP("C10", "c10-fulfilled-but-empty", vsKindWord(rb.kind), "%s: Fetch returned nil but the block %s is not populated", ft.name, rb.kind)
 					return
 				}
 				continue
@@ -738,11 +785,39 @@ func vsEnvelope(c cid.Cid, container []byte) []byte {
 // it - a yield point of the scheduler.
 type vsYieldingBlock struct {
 	Block
-	s     *verifsim.Sim
-	label string
+	s        *verifsim.Sim
+	label    string
+	returned *bool // the fetch that owns this block has returned
+	cid      cid.Cid
 }
 
 func (b vsYieldingBlock) UnmarshalFn(r *share.AxisRoots) UnmarshalFn {
 	b.s.Yield(b.label)
-	return b.Block.UnmarshalFn(r)
+	fn := b.Block.UnmarshalFn(r)
+	return func(data []byte, id []byte) error {
+		// a delivery marked slow parks here, inside the verification and with the entry lock held, so
+		// that another copy of the block can arrive meanwhile (bitswap calls the hasher concurrently)
+		vsSlowMu.Lock()
+		slow := vsSlow[verifsim.GoID()]
+		delete(vsSlow, verifsim.GoID())
+		vsSlowMu.Unlock()
+		if slow {
+			b.s.Yield("verifying a delivery for " + b.label)
+		}
+		err := fn(data, id)
+		if err == nil && b.returned != nil && *b.returned {
+			// the hasher passed a delivery through the verifier of a fetch that is gone already
+			vsSlowMu.Lock()
+			vsStale[b.cid] = true
+			vsSlowMu.Unlock()
+		}
+		return err
+	}
 }
+
+var (
+	vsSlowMu sync.Mutex
+	vsSlow   = map[uint64]bool{}
+	// vsStale: CIDs for which a delivery was accepted by the verifier of a fetch that had returned
+	vsStale = map[cid.Cid]bool{}
+)
